@@ -172,7 +172,7 @@ def apply(raw, m):
 def run_checks(scratch, checks, timeout):
     killed_by, results = None, {}
     for c in checks:
-        env = dict(os.environ, VERIF_REPO=scratch)
+        env = dict(os.environ, VERIF_REPO=scratch, VERIF_FAST_FAIL='1')
         try:
             r = subprocess.run([os.path.join(VERIF, 'check'), c, '--no-evidence'], cwd=VERIF, env=env,
                                capture_output=True, text=True, timeout=timeout, check=False)
@@ -195,14 +195,23 @@ def main():
     ap.add_argument('--files', default='')
     ap.add_argument('--out', default='/tmp/mutation_campaign.jsonl')
     ap.add_argument('--timeout', type=int, default=1500)
+    ap.add_argument('--jobs', type=int, default=1)
+    ap.add_argument('--skip', type=int, default=0, help='skip the first N mutants per file (earlier rounds)')
     args = ap.parse_args()
     rng = random.Random(args.seed)
     files = [f for f in RELEVANT if not args.files or f in args.files.split(',')]
+    import threading
+    from concurrent.futures import ThreadPoolExecutor
+    lock = threading.Lock()
+    todo = []
+    for rel in files:
+        raw, ms = mutants_of(os.path.join(REPO_SRC, rel))
+        rng.shuffle(ms)
+        todo += [(rel, raw, m) for m in ms[args.skip:args.skip + args.per_file]]
     with open(args.out, 'a', encoding='utf-8') as log:
-        for rel in files:
-            raw, ms = mutants_of(os.path.join(REPO_SRC, rel))
-            rng.shuffle(ms)
-            for m in ms[:args.per_file]:
+        def one(item):
+            rel, raw, m = item
+            if True:
                 scratch = tempfile.mkdtemp(prefix='vf_mc_')
                 try:
                     shutil.copytree(os.path.join(REPO_SRC, 'dznpy'), os.path.join(scratch, 'src', 'dznpy'),
@@ -224,11 +233,14 @@ def main():
                         rec['status'] = 'killed' if killed else 'survived'
                         rec['killed_by'] = killed
                         rec['results'] = results
-                    log.write(json.dumps(rec) + '\n')
-                    log.flush()
-                    print(rec['status'], rel, m['line'], m['kind'], rec.get('killed_by'), flush=True)
+                    with lock:
+                        log.write(json.dumps(rec) + '\n')
+                        log.flush()
+                        print(rec['status'], rel, m['line'], m['kind'], rec.get('killed_by'), flush=True)
                 finally:
                     shutil.rmtree(scratch, ignore_errors=True)
+        with ThreadPoolExecutor(max_workers=args.jobs) as ex:
+            list(ex.map(one, todo))
 
 
 if __name__ == '__main__':
